@@ -248,6 +248,7 @@ def run(pid, tier):
     rng = random.Random(ck.seed * 997 + 23)
     sys.setrecursionlimit(2500)
     hist = {"json": 0, "regex": 0, "xsd": 0, "grammar": 0, "openapi": 0, "library_exception": 0, "accepted": 0}
+    xsd_texts = []
 
     def judge(front, name, inp, out, must_reject, replay):
         hist[front] += 1
@@ -288,6 +289,8 @@ def run(pid, tier):
             r = check_xsd(t)
             if r is not None:
                 judge("xsd", name, t[:3000], r, must, {"front_end": "xsd", "construct": name, "xsd": t})
+                if "xs:pattern" not in t:          # string patterns are outside the Coq model of xml_schema/parse.py
+                    xsd_texts.append(t)
         for name, g, must in grammar_cases(rng):
             judge("grammar", name, name, check_grammar(g), must, {"front_end": "grammar", "construct": name})
         for v in openapi_cases(rng):
@@ -301,6 +304,11 @@ def run(pid, tier):
                       "distinct = (front end, construct, input), every case counts as non-trivial" % (len(JSON_MUTATIONS), len(REGEXES)))
     ck.notes["input_distribution"] = hist
     ck.assumptions = ["well-formedness judges: jsonschema metaschema check, xmlschema.XMLSchema, re.compile", "ill-typed documents are outside the contract"]
+    # which exception class escapes is part of what the Coq model of xml_schema/parse.py says: compare on the planted schemas
+    import c07
+    xh = {}
+    c07.correspondence(ck, xsd_texts, random.Random(ck.seed + 5), xh)
+    hist["xsd_model_runs"] = xh.get("model_runs", 0)
     return ck.finish(level="other", trusted=["exception class of the implementation is observed directly"],
                      explanation="mutation-style exploration of unsupported constructs; the Coq models return PyErr wherever the code would raise a non-library exception, "
                                  "their error sites are tied by the correspondence streams (error classes are compared)")
